@@ -32,7 +32,12 @@ def run(ctx):
     ctx.not_decided = ["that every hostile text yields a well-formed reply beyond the containment argument",
                        "Colang 2 flow generation: LLM text deliberately becomes flow source (AddFlowsAction) - outside clause a, stated as such"]
     a_taint(ctx)
+    a_template_source(ctx)
+    a_single_resolution(ctx)
     b_containment(ctx)
+    b_next_events(ctx)
+    b_dynamic_exec(ctx)
+    b_generated_value_types(ctx)
 
 
 def _is_source(c):
@@ -91,6 +96,115 @@ def a_taint(ctx):
         raise AnalysisError("taint engine self-test failed", anchor="C17.a/self-test")
 
 
+def _ancestors(node, stop):
+    p = getattr(node, "_parent", None)
+    while p is not None and p is not stop:
+        yield p
+        p = getattr(p, "_parent", None)
+
+
+def _within(node, root):
+    return any(x is node for x in ast.walk(root))
+
+
+TEMPLATE_MODULES = [GEN1, "nemoguardrails/llm/taskmanager.py"]
+DATA_PARAMS = ("context", "events", "kwargs", "inputs")
+
+
+def a_template_source(ctx):
+    """The template SOURCE handed to Jinja comes from configuration (prompt / predefined message); the data of the turn (context variables such as
+    $bot_message or $user_message - i.e. LLM and user text) may only enter as render() variables, never spliced into the source."""
+    n = 0
+    for rel in TEMPLATE_MODULES:
+        t = ctx.tree.ast(rel)
+        for fn in functions(t):
+            sites = [c for c in walk_no_nested(fn) if isinstance(c, ast.Call) and src(c.func).split(".")[-1] in ("from_string", "Template") and c.args]
+            if not sites:
+                continue
+            cfg = CFG(fn)
+            params = [a.arg for a in fn.args.args if a.arg in DATA_PARAMS]
+            tn = Taint(cfg, lambda c: False, tainted_params=params)
+            for c in sites:
+                n += 1
+                node = cfg.node_of(c)
+                bad = tn.tainted_at(node, c.args[0])
+                ctx.check("C17.a.template-source", rel, qualname(fn), first_line(c), not bad,
+                          "the template source does not depend on the turn's data (%s only enter through render())" % ", ".join(params) if not bad else
+                          "values of the turn's data (%s) are spliced into the template source before it is compiled: `{{ }}` / `{%% %%}` inside an LLM- or user-produced "
+                          "variable (e.g. $bot_message in a predefined message) is evaluated instead of passed through literally" % ", ".join(params), line=c.lineno)
+    ctx.floor("C17.a.template-source", GEN1, "template compilation sites", n, 2)
+
+
+CORE = "nemoguardrails/actions/core.py"
+
+
+def a_single_resolution(ctx):
+    """`$name` references written by the flow author are resolved exactly once.  The runtime resolves the TOP-LEVEL string parameters of an action,
+    and `create_event` resolves the top-level values of its event dict.  If either descended into nested containers, a value that is already the
+    result of a resolution (LLM text such as "$100 ...") would be resolved again by the other."""
+    def resolver_facts(path, fn):
+        """-> list of (store stmt, descends?, why)"""
+        out = []
+        for n in walk_no_nested(fn):
+            if not (isinstance(n, ast.Assign) and isinstance(n.targets[0], ast.Subscript)):
+                continue
+            v = n.value
+            is_lookup = (isinstance(v, ast.Subscript) and src(v.value) == "context") or (isinstance(v, ast.Call) and src(v.func) == "context.get")
+            helper = None
+            if isinstance(v, ast.Call) and not is_lookup and any(src(a) == "context" for a in v.args):
+                helper = src(v.func).split(".")[-1]
+            if not is_lookup and helper is None:
+                continue
+            guards = []
+            child = n
+            for p in _ancestors(n, fn):
+                if isinstance(p, ast.If) and any(child is b or _within(child, b) for b in p.body):
+                    guards.append(p)
+                child = p
+            dollar = any("$" in src(g.test) for g in guards)
+            if is_lookup and not dollar:
+                continue
+            if is_lookup:
+                strict = any(re.search(r"isinstance\(\s*\w+\s*,\s*str\s*\)", src(g.test)) for g in guards)
+                if isinstance(n.targets[0].value, ast.Subscript):
+                    out.append((n, True, "the store `%s` writes below the top level of the parameter dict" % src(n.targets[0])))
+                    continue
+                out.append((n, not strict, "the replaced value is not required to be a plain string" if not strict else "top-level string values only"))
+            else:
+                h = find_function(ctx.tree.ast(path), helper) or find_function(ctx.tree.ast(path), helper, None)
+                if h is None:
+                    for f in functions(ctx.tree.ast(path)):
+                        if f.name == helper:
+                            h = f
+                if h is None:
+                    out.append((n, True, "resolution delegated to `%s`, which is not defined in this module" % helper))
+                    continue
+                txt = src(h)
+                has_dollar = "$" in txt and "context" in txt
+                recursive = any(isinstance(c, ast.Call) and src(c.func).split(".")[-1] == h.name for c in ast.walk(h))
+                traverses = any(isinstance(x, (ast.DictComp, ast.ListComp, ast.For)) for x in ast.walk(h))
+                if has_dollar:
+                    out.append((n, recursive or traverses, "`%s` %s" % (helper, "descends into dict/list parameters" if (recursive or traverses) else "resolves the string it is given")))
+        return out
+
+    total = 0
+    for path, fname in ((RT1, "_process_start_action"), (CORE, "create_event")):
+        fn = None
+        for f in functions(ctx.tree.ast(path)):
+            if f.name == fname:
+                fn = f
+        if fn is None:
+            raise AnalysisError("%s not found" % fname, anchor=path + "::" + fname)
+        facts = resolver_facts(path, fn)
+        total += len(facts)
+        for n, descends, why in facts:
+            ctx.check("C17.a.single-resolution", path, qualname(fn), first_line(n, 70), not descends,
+                      "`$name` resolution here covers %s" % why if not descends else
+                      "`$name` resolution here reaches nested values (%s): a value that another resolver (runtime parameters / create_event) has already replaced by LLM text is "
+                      "resolved a second time, so message text starting with `$` is evaluated as a variable reference" % why, line=n.lineno)
+    ctx.floor("C17.a.single-resolution", RT1, "`$name` resolver stores", total, 2)
+
+
 def b_containment(ctx):
     # b1: consumers of LLM completions are actions
     n = 0
@@ -134,6 +248,18 @@ def b_containment(ctx):
                     ctx.check("C17.b.dynamic-flow", RT1, qualname(fn), first_line(a), inside,
                               "the check that exactly one flow was parsed is inside the same try" if inside else
                               "`%s` is outside the try: generated text that parses to zero/two flows raises AssertionError out of the runtime" % first_line(a), line=a.lineno)
+            idx = [a for a in walk_no_nested(fn) if isinstance(a, ast.Subscript) and isinstance(a.value, ast.Subscript) and src(a.value.slice) in ("'flows'", '"flows"')
+                   and isinstance(a.slice, ast.Constant) and isinstance(a.slice.value, int)]
+            len_checked = any((isinstance(a, ast.Assert) and "len(" in src(a.test) and "flows" in src(a.test)) and
+                              any(t_ is tr and part == "body" for t_, part in enclosing_trys(a, fn)) for a in walk_no_nested(fn))
+            for a in idx:
+                inside = any(t_ is tr and part == "body" for t_, part in enclosing_trys(a, fn))
+                guarded = any(isinstance(p_, ast.If) and "len(" in src(p_.test) and "flows" in src(p_.test) for p_ in _ancestors(a, fn))
+                ok2 = inside or len_checked or guarded
+                ctx.check("C17.b.dynamic-flow", RT1, qualname(fn), first_line(a, 60), ok2,
+                          "taking flow #%d of the parsed LLM-derived text is protected (inside the try / flow count checked)" % a.slice.value if ok2 else
+                          "`%s` outside the try and without a flow-count check: LLM text that parses to zero flows (e.g. a top-level `define user` block) raises IndexError out of generate()" % first_line(a, 60),
+                          line=a.lineno)
             falls = [s for s in h.body if isinstance(s, ast.Return)]
             ctx.check("C17.b.dynamic-flow", RT1, qualname(fn), "fallback", bool(falls) and "BotIntent" in src(falls[0]),
                       "the handler falls back to a bot intent (general response) instead of failing the turn", line=h.lineno)
@@ -156,3 +282,179 @@ def b_containment(ctx):
         C13._handler_totality(ctx, cg, RT2, add, cov[1])
         for o in ctx.obligations[before:]:
             o.rule = o.rule.replace("C13.a.handler-total", "C17.b.handler-total")
+
+
+def _returns_nonempty(fn):
+    """Every return of fn is syntactically a non-empty list (a literal with elements, or a local list with an unconditional top-level append)."""
+    rets = [r for r in walk_no_nested(fn) if isinstance(r, ast.Return)]
+    if not rets:
+        return False
+    for r in rets:
+        v = r.value
+        if isinstance(v, ast.List) and v.elts:
+            continue
+        if isinstance(v, ast.Name):
+            top_append = any(isinstance(st, ast.Expr) and isinstance(st.value, ast.Call) and isinstance(st.value.func, ast.Attribute) and st.value.func.attr == "append"
+                             and src(st.value.func.value) == v.id for st in fn.body)
+            if top_append:
+                continue
+        return False
+    return True
+
+
+def b_next_events(ctx):
+    """The Colang 1.0 processing loop indexes the list of next events (`next_events[-1]`).  A flow started from LLM text may legitimately have nothing
+    to do yet (it begins with `user ...`), so on every path to the index the list must be known non-empty: the emptiness fallback, or a producer that
+    cannot return an empty list."""
+    t = ctx.tree.ast(RT1)
+    fn = None
+    for f in functions(t):
+        if f.name == "generate_events":
+            fn = f
+    if fn is None:
+        raise AnalysisError("generate_events not found", anchor=RT1 + "::generate_events")
+    cfg = CFG(fn)
+    uses = [n for n in walk_no_nested(fn) if isinstance(n, ast.Subscript) and src(n.value) == "next_events" and isinstance(n.ctx, ast.Load)]
+    defs = [n for n in walk_no_nested(fn) if isinstance(n, ast.Assign) and src(n.targets[0]) == "next_events"]
+    ctx.floor("C17.b.next-events", RT1, "indexing of next_events in generate_events", len(uses), 1)
+    guards = [n for n in cfg.nodes if n.kind == "test" and n.ast is not None and re.sub(r"\s", "", src(n.ast)) in
+              ("len(next_events)==0", "notnext_events", "len(next_events)<1", "next_events==[]")]
+    for d in defs:
+        # the fallback assignment itself
+        if isinstance(d.value, ast.List) and d.value.elts:
+            continue
+        callee = None
+        for c in ast.walk(d.value):
+            if isinstance(c, ast.Call) and isinstance(c.func, ast.Attribute) and src(c.func.value) == "self":
+                callee = c.func.attr
+        producer = None
+        if callee:
+            for f in functions(t):
+                if f.name == callee:
+                    producer = f
+        nonempty = producer is not None and _returns_nonempty(producer)
+        dn = cfg.node_of(d)
+        for u in uses:
+            un = cfg.node_of(u)
+            if un not in cfg.reachable([dn]):
+                continue
+            ok = nonempty or (bool(guards) and cfg.must_pass(dn, un, guards))
+            ctx.check("C17.b.next-events", RT1, "RuntimeV1_0.generate_events", "%s  ->  %s" % (first_line(d, 50), first_line(u, 30)), ok,
+                      ("`%s` cannot return an empty list" % callee) if nonempty else "the emptiness fallback (Listen) lies on every path to the index" if ok else
+                      "`%s` can return an empty list (e.g. an LLM-generated flow that starts with `user ...` and therefore waits) and no emptiness fallback lies between it and `%s`: IndexError out of generate()"
+                      % (callee, first_line(u, 30)), line=d.lineno)
+
+
+def b_dynamic_exec(ctx):
+    """In multi-step mode the LLM's text becomes a flow that the Colang 1.0 interpreter EXECUTES (start_flow).  Its `$x = <expr>` / `if <expr>` / `while <expr>`
+    statements are evaluated by slide() through eval_expression, which raises on any evaluation error.  For generate() not to raise, that evaluation must be
+    contained somewhere between the processing loop and the evaluator."""
+    t = ctx.tree.ast(RT1)
+    gen2 = ctx.tree.ast(GEN1)
+    # the feature exists: generate_next_step emits start_flow with LLM-derived body
+    emits = [c for c in ast.walk(gen2) if isinstance(c, ast.Call) and src(c.func) == "new_event_dict" and c.args and isinstance(c.args[0], ast.Constant) and c.args[0].value == "start_flow"]
+    if not emits:
+        ctx.check("C17.b.dynamic-exec", GEN1, "generate_next_step", "start_flow emission", True, "no LLM-derived flow is started any more (nothing to contain)", line=1)
+        return
+    comp = None
+    for f in functions(t):
+        if f.name == "_compute_next_steps":
+            comp = f
+    if comp is None:
+        raise AnalysisError("_compute_next_steps not found", anchor=RT1 + "::_compute_next_steps")
+    calls = [c for c in walk_no_nested(comp) if isinstance(c, ast.Call) and src(c.func) == "compute_next_steps"]
+    if not calls:
+        raise AnalysisError("compute_next_steps call not found", anchor=RT1 + "::_compute_next_steps")
+    inner = contained(calls[0], comp) is not None and not handler_reraises(contained(calls[0], comp)[1])
+    # or contained at the callers
+    outer = True
+    n_sites = 0
+    for f in functions(t):
+        for c in walk_no_nested(f):
+            if isinstance(c, ast.Call) and src(c.func) == "self._compute_next_steps":
+                n_sites += 1
+                cov = contained(c, f)
+                if cov is None or handler_reraises(cov[1]):
+                    outer = False
+    # or at the evaluator inside slide()
+    sl = ctx.tree.ast("nemoguardrails/colang/v1_0/runtime/sliding.py")
+    slide = find_function(sl, "slide")
+    ev_calls = [c for c in ast.walk(slide) if isinstance(c, ast.Call) and src(c.func) == "eval_expression"] if slide else []
+    at_eval = bool(ev_calls) and all(contained(c, slide) is not None and not handler_reraises(contained(c, slide)[1]) for c in ev_calls)
+    ok = inner or (outer and n_sites > 0) or at_eval
+    ctx.check("C17.b.dynamic-exec", RT1, "RuntimeV1_0._compute_next_steps", "compute_next_steps(...) executes LLM-generated flows", ok,
+              "evaluation errors of an LLM-generated flow are contained (%s)" % ("in _compute_next_steps" if inner else "at every caller" if outer else "at the evaluator") if ok else
+              "an LLM-generated flow (multi-step generation) is executed without any containment between the processing loop and slide()'s eval_expression (%d evaluator call(s), %d caller(s)): "
+              "a generated `$a = 1/0` or `if $x.y` raises out of generate() - and again on every later turn, because the start_flow event stays in the replayed history" % (len(ev_calls), n_sites),
+              line=calls[0].lineno)
+
+
+SER = "nemoguardrails/colang/v2_x/runtime/serialization.py"
+JSON_KEY_TYPES = {"str", "int", "float", "bool"}
+
+
+def b_generated_value_types(ctx):
+    """A value generated by the LLM (`$x = ..."instruction"`) is stored in the Colang 2.x flow context and therefore serialised by state_to_json on
+    every generate() call.  literal_eval can yield types the encoder rejects (bytes, complex, Ellipsis, dict with tuple keys); the action must refuse
+    them, otherwise generate() raises.  Decided: the returned value passes a validator whose accepted types are a subset of the encoder's."""
+    t = ctx.tree.ast(GEN2)
+    fn = None
+    for f in functions(t):
+        if f.name == "generate_value":
+            fn = f
+    if fn is None:
+        raise AnalysisError("generate_value (v2) not found", anchor=GEN2 + "::generate_value")
+    enc = find_function(ctx.tree.ast(SER), "encode_to_dict")
+    if enc is None:
+        raise AnalysisError("encode_to_dict not found", anchor=SER + "::encode_to_dict")
+    handled = set()
+    for c in ast.walk(enc):
+        if isinstance(c, ast.Call) and src(c.func) == "isinstance" and len(c.args) == 2:
+            for x in ([c.args[1]] if not isinstance(c.args[1], ast.Tuple) else c.args[1].elts):
+                handled.add(src(x).split(".")[-1])
+    if "obj is None" in src(enc):
+        handled.add("None")
+    handled.add("bool")   # bool is an int
+    evals = [c for c in walk_no_nested(fn) if isinstance(c, ast.Call) and src(c.func).split(".")[-1] == "literal_eval"]
+    ctx.floor("C17.b.generated-value-types", GEN2, "literal_eval of generated text", len(evals), 1)
+    cfg = CFG(fn)
+    for c in evals:
+        st = c
+        while not isinstance(st, ast.stmt):
+            st = st._parent
+        if isinstance(st, ast.Return):
+            ctx.check("C17.b.generated-value-types", GEN2, qualname(fn), first_line(st), False,
+                      "the literal is returned as is: a generated `b\"x\"`, `1j`, `...` or `{(1, 2): 3}` enters the flow context and state_to_json raises out of generate()", line=st.lineno)
+            continue
+        if not (isinstance(st, ast.Assign) and isinstance(st.targets[0], ast.Name)):
+            raise AnalysisError("literal_eval result used in an unrecognised way: %s" % first_line(st), anchor=GEN2 + "::generate_value")
+        var = st.targets[0].id
+        rets = [r for r in walk_no_nested(fn) if isinstance(r, ast.Return) and r.value is not None and var in {x.id for x in ast.walk(r.value) if isinstance(x, ast.Name)}]
+        # guard: a test that calls a module-level validator on the variable and whose failing branch raises
+        guards = []
+        vnames = set()
+        for n in cfg.nodes:
+            if n.kind == "test" and n.ast is not None:
+                for k in ast.walk(n.ast):
+                    if isinstance(k, ast.Call) and isinstance(k.func, ast.Name) and any(isinstance(a, ast.Name) and a.id == var for a in k.args) and find_function(t, k.func.id) is not None:
+                        owner = n.stmt if getattr(n, "stmt", None) is not None else None
+                        guards.append(n)
+                        vnames.add(k.func.id)
+        for r in rets:
+            ok = bool(guards) and cfg.must_pass(cfg.node_of(st), cfg.node_of(r), guards)
+            ctx.check("C17.b.generated-value-types", GEN2, qualname(fn), first_line(r), ok,
+                      "the generated literal is returned only after the type validator %s" % sorted(vnames) if ok else
+                      "the generated literal `%s` can be returned without passing a type validator: a literal of a type the state encoder does not handle makes generate() raise" % var, line=r.lineno)
+        for vn in sorted(vnames):
+            vf = find_function(t, vn)
+            accepted = set()
+            for k in ast.walk(vf):
+                if isinstance(k, ast.Call) and src(k.func) == "isinstance" and len(k.args) == 2:
+                    for x in ([k.args[1]] if not isinstance(k.args[1], ast.Tuple) else k.args[1].elts):
+                        accepted.add(src(x))
+            extra = sorted(a for a in accepted if a not in handled)
+            last = vf.body[-1]
+            default_reject = isinstance(last, ast.Return) and isinstance(last.value, ast.Constant) and last.value.value is False
+            ctx.check("C17.b.generated-value-types", GEN2, vn, "accepted types are encodable", not extra and default_reject,
+                      "validator accepts %s, all handled by encode_to_dict (%d handled types), and rejects everything else" % (sorted(accepted), len(handled)) if not extra and default_reject else
+                      "validator accepts %s which encode_to_dict does not handle, or does not reject by default" % (extra or "unknown types"), line=vf.lineno)
